@@ -34,7 +34,7 @@ def stmt_order_problem(root):
     from ..fp import walk
     from fparser.two.utils import StmtBase
 
-    out_lines = [l.strip() for l in str(root).split("\n") if l.strip()]
+    out_lines = ["".join(l.split()) for l in str(root).split("\n") if l.strip()]
     pos = 0
     for n in walk(root, StmtBase):
         if getattr(n, "item", None) is None:
@@ -43,7 +43,7 @@ def stmt_order_problem(root):
             s = n.tofortran(isfix=False).strip() if hasattr(n, "tofortran") else str(n).strip()
         except Exception:
             s = str(n).strip()
-        s = s.split("\n")[0].strip()
+        s = "".join(s.split("\n")[0].split())
         if not s:
             continue
         try:
